@@ -307,6 +307,10 @@ func (w *Walker) walk(v ssa.Value, depth int) {
 		}
 	case *ssa.FreeVar:
 		w.freeVar(x, depth)
+	case *ssa.Alloc:
+		// composite literal / variadic argument array: the values stored
+		// into it, its elements and (nested) fields
+		w.storesUnder(x, depth, 0)
 	case *ssa.MakeClosure:
 		for _, b := range x.Bindings {
 			w.walk(b, depth)
@@ -330,6 +334,27 @@ func (w *Walker) walk(v ssa.Value, depth int) {
 						}
 					}
 				})
+			}
+		}
+	}
+}
+
+func (w *Walker) storesUnder(addr ssa.Value, depth, nest int) {
+	for _, s := range StoresTo(addr) {
+		w.walk(s.Val, depth)
+	}
+	if nest > 4 || addr.Referrers() == nil {
+		return
+	}
+	for _, r := range *addr.Referrers() {
+		switch a := r.(type) {
+		case *ssa.IndexAddr:
+			if a.X == addr {
+				w.storesUnder(a, depth, nest+1)
+			}
+		case *ssa.FieldAddr:
+			if a.X == addr {
+				w.storesUnder(a, depth, nest+1)
 			}
 		}
 	}
